@@ -157,3 +157,180 @@ Proof.
     rewrite Hspan. apply (ref_value_with_layout id [] []); [exact Hid|reflexivity|left; reflexivity].
   - cbn [step_entries In] in Hin. destruct Hin as [<-|[]]. cbn [e_kind] in Hk. congruence.
 Qed.
+
+(* ------------------------------------------------------------------------------------------ *)
+(* message style: the file an edit run writes, as a canonical file again                       *)
+(* ------------------------------------------------------------------------------------------ *)
+From Breadlog Require Import Proofs.BytesFacts Proofs.Utf8Facts.
+
+Definition item_step (cfg : config) (code pre1 : list N) (it : item) : step :=
+  match it with
+  | IStmt n l us => stmt_step cfg code pre1 n l us
+  | IStmtA n a => stmt_stepA cfg code pre1 n a
+  | _ => Skip
+  end.
+
+Definition step_missing (s : step) : bool := match s with Emit e => missing_insert e | _ => false end.
+
+(* the text of a statement item up to and including the opening quote of its message, and its message *)
+Definition item_head (it : item) : list N :=
+  match it with
+  | IStmt n l us => (render_name n ++ 33 :: 40 :: render_lay l ++ [34])%list
+  | IStmtA n a => (render_name n ++ 33 :: 40 :: render_lay (a_l0 a) ++ targ_text (a_targ a) ++ kv_text (a_kvs a) ++ [34])%list
+  | _ => []
+  end.
+Definition item_msg (it : item) : list munit :=
+  match it with IStmt _ _ us => us | IStmtA _ a => a_msg a | _ => [] end.
+
+Definition add_token (it : item) (id : N) : item :=
+  match it with
+  | IStmt n l us => IStmt n l (map MChar (default_token id) ++ us)
+  | IStmtA n a => IStmtA n (mkArgs (a_l0 a) (a_targ a) (a_kvs a) (map MChar (default_token id) ++ a_msg a))
+  | _ => it
+  end.
+
+(* the items after an edit run that starts numbering at ctr: every statement that lacked a reference carries
+   the token of the next ID at the start of its message; nothing else differs *)
+Fixpoint retoken (cfg : config) (code : list N) (its : list (lay * item)) (pre : list N) (ctr : N) : list (lay * item) :=
+  match its with
+  | [] => []
+  | (l, it) :: r =>
+      let pre1 := (pre ++ render_lay l)%list in
+      if step_missing (item_step cfg code pre1 it)
+      then (l, add_token it ctr) :: retoken cfg code r (pre1 ++ render_item it) (ctr + 1)
+      else (l, it) :: retoken cfg code r (pre1 ++ render_item it) ctr
+  end.
+
+Lemma expected_cons cfg code l it r pre :
+  expected cfg code ((l, it) :: r) pre =
+  (step_entries (item_step cfg code (pre ++ render_lay l) it) ++ expected cfg code r ((pre ++ render_lay l) ++ render_item it))%list.
+Proof. cbn [expected]. destruct it; reflexivity. Qed.
+
+Lemma stmt_item_split it :
+  (exists n l us, it = IStmt n l us) \/ (exists n a, it = IStmtA n a) ->
+  render_item it = (item_head it ++ render_msg (item_msg it) ++ [34])%list.
+Proof.
+  intros [(n & l & us & ->)|(n & a & ->)]; cbn [render_item item_head item_msg].
+  - rewrite <- !app_assoc. cbn [app]. rewrite <- !app_assoc. reflexivity.
+  - unfold render_args. rewrite render_targpart_text, render_kvpart_text. unfold msg_lit.
+    rewrite <- !app_assoc. cbn [app]. rewrite <- !app_assoc. reflexivity.
+Qed.
+
+Lemma add_token_render it id :
+  (exists n l us, it = IStmt n l us) \/ (exists n a, it = IStmtA n a) ->
+  render_item (add_token it id) = (item_head it ++ default_token id ++ render_msg (item_msg it) ++ [34])%list.
+Proof.
+  intros H. assert (H' : (exists n l us, add_token it id = IStmt n l us) \/ (exists n a, add_token it id = IStmtA n a)).
+  { destruct H as [(n & l & us & ->)|(n & a & ->)]; [left|right]; cbn [add_token]; eauto. }
+  rewrite (stmt_item_split _ H').
+  destruct H as [(n & l & us & ->)|(n & a & ->)]; cbn [add_token item_head item_msg a_l0 a_targ a_kvs a_msg];
+    rewrite render_msg_app, render_msg_chars, <- !app_assoc; reflexivity.
+Qed.
+
+(* in message style a reported statement is reported at the first character of its message, with the plain
+   token format *)
+Lemma message_step_shape cfg code pre1 it e :
+  cfg_structured cfg = false -> item_step cfg code pre1 it = Emit e ->
+  ((exists n l us, it = IStmt n l us) \/ (exists n a, it = IStmtA n a)) /\
+  e_pos e = blen (pre1 ++ item_head it) /\ e_prefix e = None /\ e_suffix e = None.
+Proof.
+  intros Hs H. destruct it as [n l us|n a|n|c]; cbn [item_step] in H; try discriminate.
+  - split; [left; eauto|]. cbn [item_head]. unfold stmt_step in H. remember (render_name n) as nm. rewrite Hs in H. cbn [andb] in H.
+    destruct (directive_check the_params (p_ignore the_params) code (blen pre1) (p_comment_re the_params)) as [[|]|]; try discriminate.
+    destruct (negb (macro_of_interest nm cfg)); try discriminate.
+    inversion H; subst e. cbn [e_pos e_prefix e_suffix]. repeat split.
+    f_equal. rewrite <- ?app_assoc. cbn [app]. rewrite <- ?app_assoc. reflexivity.
+  - split; [right; eauto|]. cbn [item_head]. unfold stmt_stepA in H. remember (render_name n) as nm. rewrite Hs in H. cbn [andb] in H.
+    destruct (directive_check the_params (p_ignore the_params) code (blen pre1) (p_comment_re the_params)) as [[|]|]; try discriminate.
+    destruct (negb (macro_of_interest nm cfg)); try discriminate.
+    inversion H; subst e. cbn [e_pos e_prefix e_suffix]. repeat split.
+    f_equal. rewrite <- ?app_assoc. cbn [app]. rewrite <- ?app_assoc. reflexivity.
+Qed.
+
+Lemma btake_app_exact (a b : list N) : btake (blength a) (a ++ b) = Some a.
+Proof.
+  induction a as [|x a IH]; cbn [blength app]; [apply btake_0|].
+  rewrite btake_cons by lia. replace (1 + blength a - 1) with (blength a) by lia. rewrite IH. reflexivity.
+Qed.
+Lemma bdrop_app_exact (a b : list N) : bdrop (blength a) (a ++ b) = Some b.
+Proof.
+  induction a as [|x a IH]; cbn [blength app]; [apply bdrop_0|].
+  rewrite bdrop_cons by lia. replace (1 + blength a - 1) with (blength a) by lia. exact IH.
+Qed.
+
+Lemma default_token_insertable e id :
+  e_prefix e = None -> e_suffix e = None -> insertable the_params e id = default_token id.
+Proof. intros Hp Hs. unfold insertable. rewrite Hp, Hs. reflexivity. Qed.
+
+(* the specification of the written bytes, computed on a canonical file in message style: the encoding of the
+   canonical file whose items are `retoken` of the original ones *)
+Lemma weave_items cfg code fin : cfg_structured cfg = false ->
+  forall its pre0 pend ctr,
+  weave the_params (utf8_encode (pend ++ render_items its fin)) (blen pre0)
+        (filter missing_insert (expected cfg code its (pre0 ++ pend))) ctr
+  = Some (utf8_encode (pend ++ render_items (retoken cfg code its (pre0 ++ pend) ctr) fin)).
+Proof.
+  intros Hs. induction its as [|[l it] r IH]; intros pre0 pend ctr.
+  - reflexivity.
+  - rewrite expected_cons, filter_app. cbn [retoken]. cbv zeta.
+    set (pre1 := ((pre0 ++ pend) ++ render_lay l)%list).
+    destruct (item_step cfg code pre1 it) as [|e|] eqn:Est; cbn [step_missing step_entries filter app].
+    1,3: cbn [render_items];
+         replace (pre1 ++ render_item it)%list with (pre0 ++ (pend ++ render_lay l ++ render_item it))%list
+           by (unfold pre1; rewrite <- !app_assoc; reflexivity);
+         replace (pend ++ render_lay l ++ render_item it ++ render_items r fin)%list
+           with ((pend ++ render_lay l ++ render_item it) ++ render_items r fin)%list by (rewrite <- !app_assoc; reflexivity);
+         rewrite IH; rewrite <- !app_assoc; reflexivity.
+    destruct (missing_insert e) eqn:Em.
+    2: { cbn [render_items].
+         replace (pre1 ++ render_item it)%list with (pre0 ++ (pend ++ render_lay l ++ render_item it))%list
+           by (unfold pre1; rewrite <- !app_assoc; reflexivity).
+         replace (pend ++ render_lay l ++ render_item it ++ render_items r fin)%list
+           with ((pend ++ render_lay l ++ render_item it) ++ render_items r fin)%list by (rewrite <- !app_assoc; reflexivity).
+         rewrite IH. rewrite <- !app_assoc. reflexivity. }
+    destruct (message_step_shape cfg code pre1 it e Hs Est) as (Hit & Hpos & Hpf & Hsf).
+    cbn [app weave render_items].
+    rewrite (default_token_insertable e ctr Hpf Hsf), Hpos.
+    rewrite (stmt_item_split it Hit), (add_token_render it ctr Hit).
+    set (chunk := (pend ++ render_lay l ++ item_head it)%list).
+    assert (Hlen : blen (pre1 ++ item_head it) - blen pre0 = blength (utf8_encode chunk)).
+    { rewrite blength_encode. unfold pre1, chunk. rewrite !blen_app. lia. }
+    assert (Hlt : (blen (pre1 ++ item_head it) <? blen pre0) = false).
+    { apply N.ltb_ge. unfold pre1. rewrite !blen_app. lia. }
+    rewrite Hlt, Hlen.
+    replace (pend ++ render_lay l ++ (item_head it ++ render_msg (item_msg it) ++ [34]) ++ render_items r fin)%list
+      with (chunk ++ ((render_msg (item_msg it) ++ [34]) ++ render_items r fin))%list
+      by (unfold chunk; rewrite <- !app_assoc; reflexivity).
+    rewrite utf8_encode_app, btake_app_exact, bdrop_app_exact.
+    replace (pre1 ++ item_head it ++ render_msg (item_msg it) ++ [34])%list
+      with ((pre1 ++ item_head it) ++ (render_msg (item_msg it) ++ [34]))%list by (rewrite <- !app_assoc; reflexivity).
+    rewrite IH.
+    f_equal. rewrite <- !utf8_encode_app. f_equal. unfold chunk. rewrite <- !app_assoc. reflexivity.
+Qed.
+
+(* After an edit run in message style -- every tree, lock state, fault oracle and stop point -- a readable
+   canonical file is byte-for-byte unchanged, or its bytes are exactly the UTF-8 encoding of the canonical file
+   whose statements without a reference now carry `[ref: N] ` (consecutive N from some c0, in file order) at the
+   start of their message: same layout, same names, same arguments, same other statements, same everything. *)
+Theorem canonical_file_rewritten rc files lk o j b its fin :
+  files <> [] -> nth_error files j = Some b ->
+  utf8_decode b = Some (render_items its fin) -> items_ok its fin -> o_rfail2 o j = false ->
+  cfg_structured (rc_cfg rc) = false ->
+  let new := nth_error (w_src (apply_effs (mkWorld files [] lk)
+                                  (ro_effs (run_edit the_params find c_START_REFERENCE_ID rc (Some files) lk o)))) j in
+  new = Some b \/
+  exists c0, new = Some (utf8_encode (render_items (retoken (rc_cfg rc) (render_items its fin) its [] c0) fin)).
+Proof.
+  intros Hne Hj Hd Hok Hrf Hst. cbv zeta.
+  destruct (edit_final_content the_params find c_START_REFERENCE_ID rc files lk o j b Hne Hj)
+    as [Hlen [Hsame|(c & Hc & Hokk)]].
+  - left. exact Hsame.
+  - right. destruct Hokk as (b' & es & c0 & _ & Hn & Hfe & Htodo & Hw).
+    rewrite PeanoNat.Nat.sub_0_r in Hn. assert (b' = b) by congruence. subst b'.
+    rewrite Hrf in Hfe. rewrite (file_entries_canonical (rc_cfg rc) b its fin Hd Hok) in Hfe.
+    inversion Hfe; subst es.
+    rewrite (decode_is_encode _ _ Hd) in Hw.
+    pose proof (weave_items (rc_cfg rc) (render_items its fin) fin Hst its [] [] c0) as Hwi.
+    cbn [app blen] in Hwi. rewrite Hwi in Hw. inversion Hw; subst c.
+    exists c0. exact Hc.
+Qed.
